@@ -6,7 +6,7 @@
 From Coq Require Import List ZArith Bool Lia.
 From SVC Require Import Base.AMap Base.Res Base.Dec Model.Types Model.Pricing
   Model.Handlers Model.EndBlock Model.Step Proofs.Inv Proofs.Lemmas Proofs.InvWf
-  Proofs.DecProofs Proofs.BankLemmas Proofs.InvBank Proofs.CtxOps.
+  Proofs.DecProofs Proofs.BankLemmas Proofs.InvBank Proofs.CtxOps Proofs.InvWd.
 Import ListNotations.
 Open Scope Z_scope.
 
@@ -39,18 +39,27 @@ Definition ex_called : State :=
     [ OCall ex_ctx 1 [11] 20 0 (CBase 500) 10 false false 0 0 true true; OEndBlock 5 ].
 Definition ex_rid : ReqId := (ex_ctx, 1, 1, 0).
 
-Lemma BDM_run cfg ops s : BDM cfg s -> BDM cfg (run cfg s ops).
-Proof. intros HB. unfold run. apply fold_inv; [intros; now apply BDM_step|assumption]. Qed.
+Lemma BDM_run cfg ops s : I_wd s -> BDM cfg s -> BDM cfg (run cfg s ops).
+Proof.
+  intros Hwd HB. unfold run.
+  apply (fold_inv (fun s => I_wd s /\ BDM cfg s)); [|split; assumption].
+  intros s0 o [H1 H2]. split; [now apply I_wd_step|now apply BDM_step].
+Qed.
 
 Lemma ex_s0_BDM : BDM exd_cfg ex_s0.
 Proof. apply BDM_init. intros a v [E|[E|[]]]; injection E as _ <-; lia. Qed.
 
+Lemma ex_s0_wd : I_wd ex_s0.
+Proof. apply I_wd_init; [lia|lia|]. intros a v [E|[E|[]]]; injection E as _ <-; lia. Qed.
+Lemma ex_bound_wd : I_wd ex_bound.
+Proof. apply I_wd_run, ex_s0_wd. Qed.
+
 Example ex_bound_BDM : BDM exd_cfg ex_bound.
-Proof. apply BDM_run, ex_s0_BDM. Qed.
+Proof. apply BDM_run; [apply ex_s0_wd|apply ex_s0_BDM]. Qed.
 Example ex_disabled_BDM : BDM exd_cfg ex_disabled.
-Proof. apply BDM_run, ex_bound_BDM. Qed.
+Proof. apply BDM_run; [apply ex_bound_wd|apply ex_bound_BDM]. Qed.
 Example ex_called_BDM : BDM exd_cfg ex_called.
-Proof. apply BDM_run, ex_bound_BDM. Qed.
+Proof. apply BDM_run; [apply ex_bound_wd|apply ex_bound_BDM]. Qed.
 
 Example ex_bound_facts :
   get (1, 11) (binds ex_bound) = Some (mkBinding 240 ex_raw 5 true TIME0 10)
@@ -261,7 +270,7 @@ Proof.
         eexists. split; [exact Hg|]. split; [exact Hb|]. left. cbn [fst snd b_owner]. eauto.
   - (* update *) unfold h_update in H. inv_ok H.
     rename a into b, a0 into amt, a1 into newp, a3 into s1.
-    rename Ha into Hb, Ha0 into Hamt, Ha1 into Hnewp, Ha2 into Hchk, Ha3 into Hpay.
+    rename Ha into Hb, Ha0 into Hamt, Ha1 into Hnewp, Ha2 into Hchk, Ha3 into Hpay. apply opt_amt_bridge in Hamt.
     set (b1 := if qos =? 0 then b else setb_qos b qos) in *.
     assert (Hb1 : b_deposit b1 = b_deposit b /\ b_owner b1 = b_owner b)
       by (subst b1; destruct (qos =? 0); auto).
@@ -299,7 +308,7 @@ Proof.
       * intros x Hx E. destruct (G2 x Hx E) as (_ & -> & _). lia.
   - (* enable *) unfold h_enable in H. inv_ok H. subst s'.
     rename a into b, a0 into amt, a1 into md, a2 into s1.
-    rename Ha into Hb, Ha0 into Hamt, Ha1 into Hmd, Ha2 into Hpay.
+    rename Ha into Hb, Ha0 into Hamt, Ha1 into Hmd, Ha2 into Hpay. apply opt_amt_bridge in Hamt.
     pose proof (opt_pay_frame _ _ _ _ _ _ Hpay) as (_ & Ei0 & _ & _).
     pose proof (opt_pay_bal _ _ _ _ _ _ Hamt Hpay) as (Hamt0 & Hbal).
     specialize (Hbal (User owner)). cbn [eqb EqDec_Acct acct_eqb] in Hbal. rewrite Z.eqb_refl in Hbal.
@@ -398,7 +407,7 @@ Theorem C14_reject_update_changed cfg s svc prov dep pr qos owner ok b amt s' :
 Proof.
   intros Hb Hav Hamt Hupd Hlt H. unfold h_update in H. inv_ok H.
   rewrite Hb in Ha. injection Ha as <-.
-  rewrite Hamt in Ha0. injection Ha0 as <-.
+  apply opt_amt_bridge in Ha0. rewrite Hamt in Ha0. injection Ha0 as <-.
   fold (is_update dep pr qos) in Ha2. rewrite Hupd, Hav in Ha2. cbn [andb] in Ha2.
   inv_ok Ha2.
   match goal with Hm : min_deposit _ _ = Ok _ |- _ => apply min_deposit_ok in Hm; rename Hm into Hmd end.
@@ -461,7 +470,7 @@ Theorem C14_reject_enable cfg s svc prov dep owner ok b amt s' :
 Proof.
   intros Hb Hamt Hlt H. unfold h_enable in H. inv_ok H.
   rewrite Hb in Ha. injection Ha as <-.
-  rewrite Hamt in Ha0. injection Ha0 as <-.
+  apply opt_amt_bridge in Ha0. rewrite Hamt in Ha0. injection Ha0 as <-.
   apply min_deposit_ok in Ha1. subst a1. b2p.
   cbn [b_deposit setb_deposit] in *. lia.
 Qed.
